@@ -31,8 +31,11 @@ enum Node {
     Debug { tag: u32, vars: Vec<String> },
     Warn { tag: u32, vars: Vec<String> },
     Error { tag: u32, vars: Vec<String> },
-    For { var: String, lo: i64, hi: i64, inclusive: bool, body: Vec<Node> },
-    Each { var: String, items: Vec<i64>, body: Vec<Node> },
+    /// `bound_func`: the upper bound is written as a call `fN(hi)` of a function of this file
+    /// (its directives are delivered once, before the first iteration)
+    For { var: String, lo: i64, hi: i64, inclusive: bool, body: Vec<Node>, bound_func: Option<usize> },
+    /// `as_map`: iterate a map `(10: x, 13: x)` with two variables; the first one carries the key
+    Each { var: String, items: Vec<i64>, body: Vec<Node>, as_map: bool },
     While { var: String, n: i64, body: Vec<Node> },
     If { cond: Cond, then: Vec<Node>, els: Vec<Node> },
     Rule { sel: String, body: Vec<Node> },
@@ -44,6 +47,11 @@ enum Node {
     Filler { kind: u8 },
     /// `@debug fN(arg)`: the function's own deliveries come first, then the inspected result
     DebugOfCall { tag: u32, func: usize, arg: i64 },
+    /// `@debug` whose value is a map written over several lines: located at the directive's first line
+    DebugMulti { tag: u32, vars: Vec<String> },
+    /// a style rule whose interpolated selector does not parse: ends the compilation with an
+    /// error whose text is not part of the expectation (only its file and its validity are)
+    BadSelector { tag: u32 },
     /// include of a mixin that is defined in an imported file (entry only, after the import)
     IncludeForeign { file: usize, mixin: usize, arg: i64, content: Option<Vec<Node>> },
 }
@@ -117,7 +125,9 @@ impl<'a> Gen<'a> {
             }
             self.budget -= 1;
             let r = self.rng.below(100);
-            let node = if r < 22 {
+            let node = if r < 4 {
+                Node::DebugMulti { tag: self.tag(), vars: vars.to_vec() }
+            } else if r < 22 {
                 Node::Debug { tag: self.tag(), vars: vars.to_vec() }
             } else if r < 42 {
                 Node::Warn { tag: self.tag(), vars: vars.to_vec() }
@@ -130,7 +140,8 @@ impl<'a> Gen<'a> {
                     v2.push(var.clone());
                 }
                 let body = self.block(if wh == Where::Function { Where::Function } else { Where::Control }, depth + 1, &v2, nmix, nfun, &[], in_rule);
-                Node::For { var, lo, hi, inclusive: self.rng.chance(0.5), body }
+                let bound_func = if nfun > 0 && wh != Where::Function && wh != Where::Mixin && wh != Where::Content && self.rng.chance(0.25) { Some(self.rng.usize_below(nfun)) } else { None };
+                Node::For { var, lo, hi, inclusive: self.rng.chance(0.5), body, bound_func }
             } else if r < 60 && depth < 3 {
                 let var = self.fresh_var("i");
                 let k = self.rng.range(1, 3);
@@ -140,7 +151,7 @@ impl<'a> Gen<'a> {
                     v2.push(var.clone());
                 }
                 let body = self.block(if wh == Where::Function { Where::Function } else { Where::Control }, depth + 1, &v2, nmix, nfun, &[], in_rule);
-                Node::Each { var, items, body }
+                Node::Each { var, items, body, as_map: self.rng.chance(0.3) }
             } else if r < 65 && depth < 3 {
                 let var = self.fresh_var("w");
                 let mut v2 = vars.to_vec();
@@ -275,14 +286,22 @@ impl Printer {
                     };
                     self.stmt(indent, &format!("{}@error {}", pre, value));
                 }
-                Node::For { var, lo, hi, inclusive, body } => {
-                    self.open(indent, &format!("@for ${} from {} {} {}", var, lo, if *inclusive { "through" } else { "to" }, hi));
+                Node::For { var, lo, hi, inclusive, body, bound_func } => {
+                    let hi_txt = match bound_func {
+                        Some(fi) => format!("{}({})", f.funcs[*fi].name, hi),
+                        None => hi.to_string(),
+                    };
+                    self.open(indent, &format!("@for ${} from {} {} {}", var, lo, if *inclusive { "through" } else { "to" }, hi_txt));
                     self.block(indent + 1, body, f, all);
                     self.close(indent);
                 }
-                Node::Each { var, items, body } => {
-                    let list: Vec<String> = items.iter().map(|i| i.to_string()).collect();
-                    self.open(indent, &format!("@each ${} in {}", var, list.join(", ")));
+                Node::Each { var, items, body, as_map } => {
+                    let list: Vec<String> = items.iter().map(|i| if *as_map { format!("{}: x", i) } else { i.to_string() }).collect();
+                    if *as_map {
+                        self.open(indent, &format!("@each ${}, $_v in ({})", var, list.join(", ")));
+                    } else {
+                        self.open(indent, &format!("@each ${} in {}", var, list.join(", ")));
+                    }
                     self.block(indent + 1, body, f, all);
                     self.close(indent);
                 }
@@ -357,7 +376,32 @@ impl Printer {
                 }
                 Node::DebugOfCall { tag, func, arg } => {
                     self.lines.insert(*tag, self.line + 1);
-                    self.stmt(indent, &format!("@debug {}({})", f.funcs[*func].name, arg));
+                    if tag % 2 == 0 {
+                        self.stmt(indent, &format!("@debug {}({})", f.funcs[*func].name, arg));
+                    } else {
+                        // the call sits in an interpolation of the message: evaluated exactly once
+                        self.stmt(indent, &format!("@debug q{}-#{{{}({})}}", tag, f.funcs[*func].name, arg));
+                    }
+                }
+                Node::DebugMulti { tag, vars } => {
+                    self.lines.insert(*tag, self.line + 1);
+                    if self.sass {
+                        self.stmt(indent, &format!("@debug (a: {}, b: 2)", Self::msg("d", *tag, vars)));
+                    } else {
+                        self.ln(indent, "@debug (");
+                        self.ln(indent, &format!("  a: {},", Self::msg("d", *tag, vars)));
+                        self.ln(indent, "  b: 2");
+                        self.ln(indent, ");");
+                    }
+                }
+                Node::BadSelector { tag } => {
+                    self.lines.insert(*tag, self.line + 1);
+                    if self.sass {
+                        self.ln(indent, ".bad-#{\"[[\"}");
+                        self.ln(indent + 1, "x: y");
+                    } else {
+                        self.ln(indent, ".bad-#{\"[[\"} { x: y; }");
+                    }
                 }
                 Node::IncludeForeign { file, mixin, arg, content } => match content {
                     None => self.stmt(indent, &format!("@include {}({})", all[*file].mixins[*mixin].name, arg)),
@@ -435,7 +479,15 @@ impl<'a> Exec<'a> {
                     self.error = Some(Expected { kind: "error".into(), file: self.files[fi].path.clone(), line: self.lines[fi][tag], msg: inspected });
                     return false;
                 }
-                Node::For { var, lo, hi, inclusive, body } => {
+                Node::For { var, lo, hi, inclusive, body, bound_func } => {
+                    if let Some(bf) = bound_func {
+                        let f = &self.files[fi].funcs[*bf];
+                        let mut fenv = BTreeMap::new();
+                        fenv.insert("a".to_string(), *hi);
+                        if !self.run(fi, &f.body, &mut fenv, None) {
+                            return false;
+                        }
+                    }
                     // Sass @for counts down when from > to; the generator only emits lo <= hi
                     let end = if *inclusive { *hi } else { *hi - 1 };
                     let mut i = *lo;
@@ -448,7 +500,7 @@ impl<'a> Exec<'a> {
                     }
                     env.remove(var);
                 }
-                Node::Each { var, items, body } => {
+                Node::Each { var, items, body, .. } => {
                     for it in items {
                         env.insert(var.clone(), *it);
                         if !self.run(fi, body, env, content.clone()) {
@@ -529,7 +581,13 @@ impl<'a> Exec<'a> {
                     if !self.run(fi, &f.body, &mut fenv, None) {
                         return false;
                     }
-                    self.out.push(Expected { kind: "debug".into(), file: self.files[fi].path.clone(), line: self.lines[fi][tag], msg: arg.to_string() });
+                    let msg = if tag % 2 == 0 { arg.to_string() } else { format!("q{}-{}", tag, arg) };
+                    self.out.push(Expected { kind: "debug".into(), file: self.files[fi].path.clone(), line: self.lines[fi][tag], msg });
+                }
+                Node::DebugMulti { tag, vars } => self.out.push(Expected { kind: "debug".into(), file: self.files[fi].path.clone(), line: self.lines[fi][tag], msg: format!("(a: {}, b: 2)", Self::msg("d", *tag, vars, env)) }),
+                Node::BadSelector { tag } => {
+                    self.error = Some(Expected { kind: "error".into(), file: self.files[fi].path.clone(), line: self.lines[fi][tag], msg: "*".into() });
+                    return false;
                 }
                 Node::IncludeForeign { file, mixin, arg, content: c } => {
                     // the mixin's directives live in the file that defines it, the content block's in this one
@@ -595,7 +653,11 @@ fn put_error(nodes: &mut Vec<Node>, rng: &mut Rng, tag: u32) {
             _ => {}
         }
     }
-    nodes.insert(pos, Node::Error { tag, vars: vec![] });
+    if rng.chance(0.2) {
+        nodes.insert(pos, Node::BadSelector { tag });
+    } else {
+        nodes.insert(pos, Node::Error { tag, vars: vec![] });
+    }
 }
 
 pub fn gen_script(rng: &mut Rng, root: &str) -> Script {
@@ -722,6 +784,7 @@ pub fn gen_script(rng: &mut Rng, root: &str) -> Script {
     let cjk = g.rng.chance(0.3);
     let crlf = g.rng.chance(0.2);
     let no_final_newline = g.rng.chance(0.2);
+    let tabs = g.rng.chance(0.15);
     let mut texts = vec![];
     let mut lines = vec![];
     for f in &files {
@@ -729,6 +792,10 @@ pub fn gen_script(rng: &mut Rng, root: &str) -> Script {
         p.file(f, &files);
         // CRLF line ends: line numbers stay the same, byte offsets and line terminators do not
         let mut t = if crlf { p.out.replace('\n', "\r\n") } else { p.out };
+        if tabs && !f.sass {
+            // SCSS does not care how lines are indented; error rendering has to cope with tabs
+            t = t.replace("\n  ", "\n\t").replace("\t  ", "\t\t");
+        }
         if no_final_newline && !f.sass {
             while t.ends_with('\n') || t.ends_with('\r') {
                 t.pop();
@@ -847,7 +914,12 @@ fn judge(job: &JobSpec, expected: &[Expected], error: &Option<Expected>, mode: &
     if mode == "plain" || mode == "quiet" {
         match (error, &r.outcome) {
             (Some(ee), Outcome::Err(e)) => {
-                if e.kind != "parse" || e.message != ee.msg || e.line != ee.line || normalize(&job.cwd, &e.file) != normalize(&job.cwd, &ee.file) {
+                if ee.msg == "*" {
+                    // an error of the implementation's own wording: it must be a located error in the right file
+                    if e.kind != "parse" || normalize(&job.cwd, &e.file) != normalize(&job.cwd, &ee.file) {
+                        v.push(("error-mismatch".into(), format!("expected a located error in {}, got kind={} in {:?}: {}", ee.file, e.kind, e.file, e.message)));
+                    }
+                } else if e.kind != "parse" || e.message != ee.msg || e.line != ee.line || normalize(&job.cwd, &e.file) != normalize(&job.cwd, &ee.file) {
                     v.push(("error-mismatch".into(), format!("expected @error {} at {}:{}, got kind={} message={:?} at {}:{}", ee.msg, ee.file, ee.line, e.kind, e.message, e.file, e.line)));
                 }
             }
